@@ -1,7 +1,7 @@
 """Structural accessor tables of the document model (C13, shared with C08): `Document::link_at` finds the link under the cursor by descending through
 `DocumentBlock::child_blocks`, `DocumentBlock::child_inlines` and `DocumentInline::child_inlines`.  Each is a variant table; a variant whose payload has nested content
 (`blocks` / `items` / `inlines`) must hand that content out - if it slides into a `_ => vec![]` arm, the links inside such a block (a heading, a quote, an emphasis) are invisible to
-go-to-definition, prepare-rename and rename.  The cells of a table are nested inlines as well (header / rows): on the pinned tree they are not handed out - a known finding."""
+go-to-definition, prepare-rename and rename.  The cells of a table are nested inlines as well (header / rows): they were not handed out on the pinned tree (repaired in 82acfd5)."""
 from vlib import factbase as fb
 from . import arms as A
 from .common import ctx, loc, match_arms_on, arms_by_variant
